@@ -147,6 +147,29 @@ theorem no_parked_forever_unsync (b : Bool) (evs : List Ev) (s : St)
   · exact h2
   · omega
 
+/-- The same without the ghost: if `c` is the only `take()`/`close()` future that was ever created
+(at most one explicit close per descriptor), it is never left parked as the sole owner without a wake-up. -/
+theorem no_parked_forever_single_closer (b : Bool) (evs : List Ev) (s : St)
+    (hev : ∀ e ∈ evs, e.unsync = true) (h : run (init b) evs = some s) (c : Nat)
+    (hc : s.parked c) (h1 : s.count = 1)
+    (honly : ∀ (i : Nat) (pc : CPc), s.actors[i]? = some (.closer pc) → i = c) : c ∈ s.woken := by
+  have hk := kinv_run (kinv_init b) h
+  have h0 : cntP Role.isRaw s.actors = 0 := by
+    apply cntP_zero
+    intro i r hir
+    cases r with
+    | closer pc =>
+      have := honly i pc hir
+      subst this
+      unfold St.parked at hc
+      rw [hc] at hir
+      cases hir
+      rfl
+    | handle st => rfl
+    | op st => rfl
+    | gone => rfl
+  exact no_parked_forever_unsync b evs s hev h c hc h1 (by rw [hk, h0])
+
 /-- ... and such a woken closer completes at its next poll. -/
 theorem sole_owner_poll_completes (b : Bool) (evs : List Ev) (s : St) (h : run (init b) evs = some s)
     (c : Nat) (hc : s.parked c) (h1 : s.count = 1) :
@@ -183,6 +206,80 @@ theorem rawDecs_only_by_raw_paths (s s' : St) (e : Ev) (h : step s e = some s') 
       | (right; simp; done)
       | (by_cases hw : s.waits = true <;> by_cases h1 : s.count = 1 <;> simp [hw, h1]; done)
       | trace_state)
+
+/-! ## 2b. The one-step events are schedules of the split ones
+
+so every interleaving of the single-threaded build is also an interleaving of the `sync` build: the
+safety theorems of section 1 cover both, and the defect witnesses of `Cex.C06` for the `sync` build
+differ from the proved-live executions only by where the other thread's two halves of `Drop` fall. -/
+
+/-- the one-step `drop` is the schedule `dropCheck; dropDec` of the split drop -/
+theorem drop_eq_split (s : St) (x : Nat) (hs : s.sync = true) :
+    step s (.drop x) = run s [.dropCheck x, .dropDec x] := by
+  simp only [run, step, stepDrop, stepDropCheck, hs, if_true]
+  cases hx : s.actors[x]? with
+  | none => simp
+  | some r =>
+    have hlt : x < s.actors.length := by
+      by_cases h : x < s.actors.length
+      · exact h
+      · have : s.actors[x]? = none := by simp; omega
+        simp [this] at hx
+    cases r with
+    | gone => simp
+    | closer pc => simp
+    | handle st =>
+      cases st with
+      | checked => simp
+      | live =>
+        have h1 : (s.actors.set x (Role.handle .checked))[x]? = some (.handle .checked) := by
+          simp [hlt]
+        simp [stepDropDec, hs, h1, setRole_setRole]
+    | op st =>
+      cases st with
+      | checked => simp
+      | live =>
+        have h1 : (s.actors.set x (Role.op .checked))[x]? = some (.op .checked) := by
+          simp [hlt]
+        simp [stepDropDec, hs, h1, setRole_setRole]
+
+/-- a whole re-poll of a parked closer is the schedule of its micro steps -/
+theorem poll_parked_eq_micro (s : St) (c : Nat) (hs : s.sync = true) (hc : s.parked c) :
+    step s (.poll c) =
+      run s (if s.count = 1 then [.pBegin c, .pTry1 c] else [.pBegin c, .pTry1 c, .pReg c, .pTry2 c]) := by
+  unfold St.parked at hc
+  have h1 : (s.actors.set c (Role.closer .try1))[c]? = some (.closer .try1) := get_set_self _ _ _ _ hc
+  have h2 : (s.actors.set c (Role.closer .reg))[c]? = some (.closer .reg) := get_set_self _ _ _ _ hc
+  have h3 : (s.actors.set c (Role.closer .try2))[c]? = some (.closer .try2) := get_set_self _ _ _ _ hc
+  by_cases hcnt : s.count = 1
+  · simp [run, step, stepPoll, stepMicro, hs, hc, hcnt, beginPoll, clearWoken, pollBody, tryUnwrap1, h1,
+      setRole, List.set_set, deliver]
+  · simp [run, step, stepPoll, stepMicro, hs, hc, hcnt, beginPoll, clearWoken, pollBody, tryUnwrap1, tryUnwrap2,
+      register, h1, h2, h3, setRole, List.set_set]
+
+/-- a whole first poll is the schedule of its micro steps -/
+theorem poll_first_eq_micro (s : St) (c : Nat) (hs : s.sync = true)
+    (hc : s.actors[c]? = some (.closer .created) ∨ s.actors[c]? = some (.closer .wrapped)) :
+    step s (.poll c) =
+      run s (if s.waits = true then [.pSwap c, .pNone c]
+        else if s.count = 1 then [.pSwap c, .pTry1 c] else [.pSwap c, .pTry1 c, .pReg c, .pTry2 c]) := by
+  have hx : ∃ r0, s.actors[c]? = some r0 := by rcases hc with h | h <;> exact ⟨_, h⟩
+  obtain ⟨r0, hr0⟩ := hx
+  have h0 : (s.actors.set c (Role.closer .losing))[c]? = some (.closer .losing) := get_set_self _ _ _ _ hr0
+  have h1 : (s.actors.set c (Role.closer .try1))[c]? = some (.closer .try1) := get_set_self _ _ _ _ hr0
+  have h2 : (s.actors.set c (Role.closer .reg))[c]? = some (.closer .reg) := get_set_self _ _ _ _ hr0
+  have h3 : (s.actors.set c (Role.closer .try2))[c]? = some (.closer .try2) := get_set_self _ _ _ _ hr0
+  by_cases hw : s.waits = true
+  · rcases hc with hc | hc <;>
+      simp [run, step, stepPoll, stepPSwap, stepMicro, hs, hc, hw, firstPoll, swapWaits, loseNone, h0, setRole,
+        List.set_set]
+  · by_cases hcnt : s.count = 1
+    · rcases hc with hc | hc <;>
+        simp [run, step, stepPoll, stepPSwap, stepMicro, hs, hc, hw, hcnt, firstPoll, swapWaits, pollBody,
+          tryUnwrap1, h1, setRole, List.set_set, deliver]
+    · rcases hc with hc | hc <;>
+        simp [run, step, stepPoll, stepPSwap, stepMicro, hs, hc, hw, hcnt, firstPoll, swapWaits, pollBody,
+          tryUnwrap1, tryUnwrap2, register, h1, h2, h3, setRole, List.set_set]
 
 /-! ## 3. Descriptors produced by operations (accept / open / socket / pipe / multishot accept) -/
 
